@@ -350,7 +350,7 @@ class Reaction:
                 reactants_index, = new._stoichiometry.positive_index()
                 N_reactants = len(reactants_index)
                 if N_reactants == 1:
-                    self._reactant_index = reactants_index[0]
+                    new._reactant_index = reactants_index[0]
                 else:
                     raise ValueError('must pass reactant when multiple reactants are involved')
         else:
